@@ -28,7 +28,7 @@ import (
 
 func init() {
 	register("wire", []string{"C20", "C06"},
-		"requests sent in-process to MintServer's http.Handler as hand-built JSON text, answers parsed generically and canonicalised (ids, invoices, points, times -> model symbols); every request compared with Model.Wire.handleX (status, ordered body tree, storage trace, Lightning calls, cache size) and checked by model-free monitors (status in {200,400}, NUT shape per endpoint, detail->code table, NUT code per cause, generic body on DB/LN faults, cache hit => no storage call and identical bytes, near-replay never served from the cache); parts: cause table (one scripted scenario per refusal cause), random histories (quick 10 x 70-110 requests, thorough 80 x 100-220), replay block per history, cache object unit block; a case = one request, class = (handler, status, code, detail class); distinct_nontrivial additionally counts each cashu.Error variable reached",
+		"requests sent in-process to MintServer's http.Handler as hand-built JSON text, answers parsed generically and canonicalised (ids, invoices, points, times -> model symbols); every request compared with Model.Wire.handleX (status, ordered body tree, storage trace, Lightning calls, cache size) and checked by model-free monitors (status in {200,400}, NUT shape per endpoint, detail->code table, NUT code per cause, generic body on DB/LN faults, cache hit => no storage call and identical bytes, near-replay never served from the cache); parts: cause table (one scripted scenario per refusal cause), random histories (quick 8 x 60-100 requests, thorough 80 x 100-220), replay block per history, cache object unit block; a case = one request, class = (handler, status, code, detail class); distinct_nontrivial additionally counts each cashu.Error variable reached",
 		runWire)
 	register("wire-malformed", []string{"C06", "C20"},
 		"structural mutations (list emptied; field dropped / null / retyped to number, string, bool, object, array; string garbled, made non-hex, oversized; number negative, fractional, huge, exponent; unknown ids; duplicated key; upper-cased key; wrong or parameterised content type; truncated, empty, null, array, garbage bodies; a >2MB body) of the seven valid request kinds, sent at five mint states of a running history (fresh, paid quote, pending melt, spent inputs, after rotation); monitors only: refused => direct storage snapshot unchanged (UNPAID->PAID of a settled quote allowed), no panic (own recover around the handler), answer is 200/400 JSON of the NUT shape, decode class predicted by the harness's own schema walker; a case = one mutated request, class = (kind, mutation, state, outcome)",
@@ -1131,7 +1131,7 @@ func runWire(c *Ctx) {
 		return
 	}
 	runCacheUnit(c)
-	histories, minOps, maxOps := 10, 70, 110
+	histories, minOps, maxOps := 8, 60, 100
 	if c.Thorough {
 		histories, minOps, maxOps = 80, 100, 220
 	}
